@@ -122,7 +122,7 @@ pub fn main() {
         "miri" => {
             let seed = parse_u64(&arg_val(&args, "--seed").expect("--seed"));
             let index = parse_u64(&arg_val(&args, "--index").expect("--index"));
-            exit(miri_mode::run(seed, index, args.iter().any(|a| a == "--dump-only")));
+            exit(miri_mode::run(seed, index, args.iter().any(|a| a == "--dump-only"), args.iter().any(|a| a == "--c18")));
         }
         "miri-spec" => exit(miri_mode::run_json(args.get(2).expect("miri-spec <json>"))),
         "selfcheck" => exit(selfcheck()),
